@@ -23,8 +23,16 @@ import (
 	"golang.org/x/tools/go/ssa/ssautil"
 )
 
+// repoDir is the tree under analysis: /repo, or $GOSYM_REPO (used to run the
+// checks against a scratch worktree carrying a seeded change).
+var repoDir = func() string {
+	if d := os.Getenv("GOSYM_REPO"); d != "" {
+		return d
+	}
+	return "/repo"
+}()
+
 const (
-	repoDir    = "/repo"
 	verifDir   = "/verif"
 	harnessDir = "/verif/harness"
 	outDir     = "/verif/out"
@@ -455,13 +463,13 @@ func cmdCheck(args []string) int {
 			continue
 		}
 		if v.Replayed == "static-lock-log" {
-			path := filepath.Join(outDir, "replay", fmt.Sprintf("%s-%d.json", id, i))
+			path := filepath.Join(outDir, replaySub(), fmt.Sprintf("%s-%d.json", id, i))
 			writeJSON(path, v)
 			violLines = append(violLines, fmt.Sprintf("VIOLATION property=%s replay=%s harness=%s label=%s detail=%q", id, path, v.Harness, v.Label, v.Detail))
 			confirmed++
 			continue
 		}
-		path := filepath.Join(outDir, "replay", fmt.Sprintf("%s-%d.json", id, i))
+		path := filepath.Join(outDir, replaySub(), fmt.Sprintf("%s-%d.json", id, i))
 		writeJSON(path, v)
 		var native bool
 		for _, h := range spec.Harnesses {
@@ -540,8 +548,12 @@ func cmdCheck(args []string) int {
 		ev["coverage"].(map[string]interface{})["states"] = 1
 		ev["coverage"].(map[string]interface{})["transitions"] = 1
 	}
-	os.MkdirAll(filepath.Join(verifDir, "evidence"), 0o755)
-	writeJSON(filepath.Join(verifDir, "evidence", id+".json"), ev)
+	evDir := filepath.Join(verifDir, "evidence")
+	if os.Getenv("GOSYM_REPO") != "" {
+		evDir = filepath.Join(outDir, "alt-evidence") // never overwrite the real evidence from a scratch tree
+	}
+	os.MkdirAll(evDir, 0o755)
+	writeJSON(filepath.Join(evDir, id+".json"), ev)
 
 	var kcs []string
 	for c := range knownSeen {
@@ -566,6 +578,13 @@ func cmdCheck(args []string) int {
 	}
 	fmt.Printf("HELD property=%s tier=%s paths=%d queries=%d wall=%.1fs\n", id, *tier, totalPaths, atomic.LoadInt64(&gstats.Queries), wall)
 	return 0
+}
+
+func replaySub() string {
+	if os.Getenv("GOSYM_REPO") != "" {
+		return fmt.Sprintf("alt-replay-%d", os.Getpid())
+	}
+	return "replay"
 }
 
 func (e *Engine) xsolversUsed() []string {
